@@ -13,7 +13,7 @@ import session as S
 # which query opcodes feed which property (model-vs-implementation facet and oracle alike)
 FACET_OPS = {
     "C01": {35, 38},
-    "C02": {41, 42, 43},
+    "C02": {41, 42, 43, 47},
     "C03": {33, 37, 38, 46},
     "C04": {20, 21, 23, 36},
     "C05": {24, 25},
